@@ -2,8 +2,11 @@
 //! /repo's working tree, runs the harness, matches known findings, writes replays
 //! and evidence.  `vdriver setup | run <Cxx> <quick|thorough> | replay <dir>`
 
+mod cf;
 mod corpus;
+mod cprops;
 mod evidence;
+mod expand;
 mod findings;
 mod rt;
 
@@ -16,7 +19,7 @@ pub struct Env {
     pub seed: u64,
 }
 
-pub const RT_PROPS: &[&str] = &["C01", "C03", "C04", "C06", "C07", "C09", "C10", "C11", "C12", "C13", "C14", "C16"];
+pub const RT_PROPS: &[&str] = &["C01", "C02", "C03", "C04", "C06", "C07", "C09", "C10", "C11", "C12", "C13", "C14", "C16"];
 
 fn main() {
     let args: Vec<String> = std::env::args().collect();
@@ -38,6 +41,12 @@ fn main() {
             }
             if RT_PROPS.contains(&prop.as_str()) {
                 rt::run(&env, &prop, &tier)
+            } else if prop == "C08" {
+                cprops::run_c08(&env, &tier)
+            } else if prop == "C05" {
+                cprops::run_c05(&env, &tier)
+            } else if prop == "C15" {
+                cprops::run_c15(&env, &tier)
             } else {
                 eprintln!("unknown property {prop}");
                 2
